@@ -264,7 +264,10 @@ func wireable(t string) bool {
 		return false
 	}
 	for i := 0; i < len(t); i++ {
-		if t[i] <= ' ' || t[i] == 0x7f {
+		// (bytes >= 0x80 are not sent raw either: clients percent-encode them, and what net/http's server does with a
+		// raw non-ASCII request target is outside the model — found by the thorough tier as a tie difference
+		// without any failing input: upload of "\xff\xfe.pcap", then a raw GET of it served nothing)
+		if t[i] <= ' ' || t[i] >= 0x7f {
 			return false
 		}
 	}
